@@ -69,7 +69,7 @@ def schema_case(rng, atoms):
         return x, y
     px, py = schemas_ja.ROW_PATTERNS[sym]
     vars_ = set(refunify.pattern_vars(px) + refunify.pattern_vars(py))
-    assign = {v: gens.random_value(rng, atoms, rng.choice((1, 1, 1, 2, 2, 3)), slashes=('/', '\\')) for v in sorted(vars_)}
+    assign = {v: gens.random_value(rng, atoms, rng.choice((1, 1, 1, 2, 2, 3, 4, 5)), slashes=('/', '\\')) for v in sorted(vars_)}
     if rng.random() < 0.25:
         assign['a'] = assign['b']                      # modifier
     a2 = dict(assign)
